@@ -55,6 +55,60 @@ def asan(core, work, seed, jobs):
     return out, viol, inc
 
 
+TSAN_DIR = "/verif/harness/target-tsan"
+TSAN_BIN = os.path.join(TSAN_DIR, "x86_64-unknown-linux-gnu", "debug")
+
+
+def tsan(core, work, seed, jobs):
+    """ThreadSanitizer: needs an instrumented standard library (-Zbuild-std); tools/mkvendor_std.py
+    makes the directory source that lets cargo resolve std's dependencies offline.
+    jobs: list of (label, binary, args, json out or None)"""
+    out = {"runs": [], "reports": 0}
+    viol, inc = [], []
+    r = subprocess.run(["python3", os.path.join(core.VERIF, "tools", "mkvendor_std.py")], stdout=subprocess.PIPE, stderr=subprocess.STDOUT, text=True)
+    if r.returncode != 0:
+        inc.append("ThreadSanitizer: vendor-std could not be made: " + r.stdout[-200:].replace("\n", " | "))
+        return out, viol, inc
+    env = dict(core.ENV, RUSTFLAGS="-Zsanitizer=thread")
+    rc, log = _run(["cargo", "+nightly", "build", "-q", "-Zbuild-std", "-p", "hx", "--bin", "stress", "--bin", "hostile", "--bin", "progsim",
+                    "--target", "x86_64-unknown-linux-gnu", "--target-dir", TSAN_DIR,
+                    "--config", 'source.vendored.directory="%s"' % os.path.join(core.VERIF, "vendor-std")], cwd=core.HARNESS, env=env)
+    if rc != 0:
+        inc.append("ThreadSanitizer build failed: " + log[-300:].replace("\n", " | "))
+        return out, viol, inc
+    renv = dict(core.ENV, TSAN_OPTIONS="halt_on_error=1:exitcode=66:second_deadlock_stack=1:history_size=4")
+    for label, binary, args, jout in jobs:
+        o = os.path.join(work, "tsan-%s.json" % label) if jout else None
+        argv = [os.path.join(TSAN_BIN, binary)] + args + (["--out", o] if o else [])
+        t0 = time.time()
+        rc, log = _run(argv, env=renv, timeout=900)
+        entry = {"run": label, "status": rc, "wall_s": round(time.time() - t0, 1)}
+        if "WARNING: ThreadSanitizer" in log or rc == 66:
+            out["reports"] += 1
+            rp = os.path.join(core.REPLAYS, "tsan-%s.log" % label)
+            os.makedirs(core.REPLAYS, exist_ok=True)
+            open(rp, "w").write(log[-30000:])
+            first = [l for l in log.splitlines() if "WARNING: ThreadSanitizer" in l][:1]
+            # the first frame inside the repository or the harness, for the reader
+            frames = [l.strip() for l in log.splitlines() if "/repo/" in l or "/verif/harness/" in l][:2]
+            viol.append({"category": "Sanitizer", "signature": "tsan-report", "detail": "ThreadSanitizer report in %s: %s %s" % (label, (first or [log[-200:]])[0][:200], " | ".join(frames)[:300]), "replay": rp})
+        elif rc == "timeout":
+            inc.append("TSan run %s timed out" % label)
+        elif o and os.path.exists(o):
+            try:
+                d = json.load(open(o))
+                entry["executions"] = d.get("executions")
+                entry["records"] = d.get("records_checked")
+                for v in d.get("violations", [])[:3]:
+                    v = dict(v)
+                    v["detail"] = "[TSan build] " + v.get("detail", "")
+                    viol.append(v)
+            except Exception:
+                pass
+        out["runs"].append(entry)
+    return out, viol, inc
+
+
 def miri(core, work, seeds=(1, 2, 3, 4), many="0..16"):
     out = {"runs": [], "reports": 0}
     viol, inc = [], []
